@@ -12,30 +12,36 @@ Local Open Scope Z_scope.
 Lemma eps_ms_nonneg : 0 <= eps_ms.
 Proof. unfold eps_ms. lia. Qed.
 
+(* equal up to associativity/commutativity of the delay expression and the direction in which a comparison is written *)
+Ltac fx_eq := repeat match goal with
+                     | |- (_, _) = (_, _) => apply f_equal2
+                     | |- Some _ = Some _ => apply f_equal
+                     end; try reflexivity; try lia.
+
 Lemma made_ka_spec t lr k u a tm : connectionMade_ka t lr k u a tm = (Some (t + (k + eps_ms)), t, true, 0, 0).
-Proof. reflexivity. Qed.
+Proof. unfold connectionMade_ka, eps_ms. fx_eq. Qed.
 
 Lemma made_dc_spec t lr k u a tm : connectionMade_dc t lr k u a tm = (Some (t + (k + eps_ms)), t, true, 0, 0).
-Proof. reflexivity. Qed.
+Proof. unfold connectionMade_dc, eps_ms. fx_eq. Qed.
 
 Lemma stamp_spec t lr k u a tm :
   dataReceived_stamp t lr k u a tm = (tm, (if a then lr else if u then t else lr), u, 0, 0).
-Proof. destruct a, u; reflexivity. Qed.
+Proof. unfold dataReceived_stamp. destruct a, u; fx_eq. Qed.
 
 Lemma ka_fired_spec t lr k u a tm :
-  keepaliveTimerFired t lr k u a tm = (Some (t + (k + eps_ms)), lr, u, (if t - lr >? k then 1 else 0), 0).
-Proof. unfold keepaliveTimerFired. destruct (t - lr >? k); reflexivity. Qed.
+  keepaliveTimerFired t lr k u a tm = (Some (t + (k + eps_ms)), lr, u, (if k <? t - lr then 1 else 0), 0).
+Proof. unfold keepaliveTimerFired, eps_ms. rewrite ?Z.gtb_ltb. destruct (k <? t - lr); fx_eq. Qed.
 
 Lemma dc_fired_spec t lr d u a tm :
   disconnectTimerFired t lr d u a tm =
-  if t - lr >? d then (None, lr, u, 0, 1) else (Some (t + (d + eps_ms)), lr, u, 0, 0).
-Proof. unfold disconnectTimerFired. destruct (t - lr >? d); reflexivity. Qed.
+  if d <? t - lr then (None, lr, u, 0, 1) else (Some (t + (d + eps_ms)), lr, u, 0, 0).
+Proof. unfold disconnectTimerFired, eps_ms. rewrite ?Z.gtb_ltb. destruct (d <? t - lr); fx_eq. Qed.
 
 Lemma lost_ka_spec t lr k u a tm : connectionLost_ka t lr k u a tm = (None, lr, u, 0, 0).
-Proof. destruct tm; reflexivity. Qed.
+Proof. unfold connectionLost_ka. destruct tm; fx_eq. Qed.
 
 Lemma lost_dc_spec t lr k u a tm : connectionLost_dc t lr k u a tm = (None, lr, u, 0, 0).
-Proof. destruct tm; reflexivity. Qed.
+Proof. unfold connectionLost_dc. destruct tm; fx_eq. Qed.
 
 (* ------------------------------------------------------------------------------------------
    2. Field-wise description of one step                                                       *)
@@ -48,19 +54,19 @@ Definition ka_after (c : cfg) (s : st) (t : Z) : option Z :=
 
 Definition pings_new (c : cfg) (s : st) (t : Z) : list Z :=
   match ka s, cK c with
-  | Some e, Some k => if e <=? t then (if t - last_rx s >? k then [t] else []) else []
+  | Some e, Some k => if e <=? t then (if k <? t - last_rx s then [t] else []) else []
   | _, _ => []
   end.
 
 Definition dc_after (c : cfg) (s : st) (t : Z) : option Z :=
   match dc s, cT c with
-  | Some e, Some d => if e <=? t then (if t - last_rx s >? d then None else Some (t + (d + eps_ms))) else Some e
+  | Some e, Some d => if e <=? t then (if d <? t - last_rx s then None else Some (t + (d + eps_ms))) else Some e
   | x, _ => x
   end.
 
 Definition torn_new (c : cfg) (s : st) (t : Z) : list Z :=
   match dc s, cT c with
-  | Some e, Some d => if e <=? t then (if t - last_rx s >? d then [t] else []) else []
+  | Some e, Some d => if e <=? t then (if d <? t - last_rx s then [t] else []) else []
   | _, _ => []
   end.
 
@@ -75,7 +81,7 @@ Proof.
   destruct k as [ek|], (cK c) as [kk|]; try destruct (ek <=? t);
     try rewrite ka_fired_spec; cbn [apply_ka Timers.dc Timers.last_rx Timers.use_ka Timers.abandoned];
     destruct d as [ed|], (cT c) as [dd|]; try destruct (ed <=? t);
-    try rewrite dc_fired_spec; try destruct (t - lr >? kk); try destruct (t - lr >? dd);
+    try rewrite dc_fired_spec; try destruct (kk <? t - lr); try destruct (dd <? t - lr);
     cbn; repeat split; reflexivity.
 Qed.
 
@@ -167,7 +173,7 @@ Proof.
     split; [lia|].
     split.
     { intros x Hx. apply in_app_or in Hx as [Hx|Hx]; [|specialize (Ht x Hx); lia].
-      unfold torn_new in Hx. destruct (dc s), (cT c); try destruct (_ <=? t); try destruct (_ >? _);
+      unfold torn_new in Hx. destruct (dc s), (cT c); try destruct (_ <=? t); try destruct (_ <? _);
         cbn in Hx; try contradiction. destruct Hx as [<-|[]]. lia. }
     split.
     { intros C k E. destruct (Hk C k E) as (e & Ee & ?). unfold ka_after. rewrite Ee, E.
@@ -175,7 +181,7 @@ Proof.
     split.
     { intros C d E N. apply app_eq_nil in N as [N1 N2]. destruct (Hd C d E N2) as (e & Ee & ?).
       unfold dc_after. unfold torn_new in N1. rewrite Ee, E in *.
-      destruct (e <=? t); [destruct (t - last_rx s >? d); [discriminate|]|]; eexists; (split; [reflexivity|lia]). }
+      destruct (e <=? t); [destruct (d <? t - last_rx s); [discriminate|]|]; eexists; (split; [reflexivity|lia]). }
     split; [intros E; unfold ka_after; rewrite (Hkn E); reflexivity|].
     split; [intros E; unfold dc_after; rewrite (Hdn E); reflexivity|]. exact Hu.
   - destruct (close_fields c s t) as (Fn & Fl & Fu & Fa & Fc & Fk & Fd & Ft & Fp).
@@ -243,7 +249,7 @@ Proof.
       * left. exists x. split; [apply in_or_app; right; exact Hx | exact Hb].
       * destruct P1 as [_ P1]. specialize (P1 e Ee). unfold dc_after, torn_new. rewrite Ee, ET.
         destruct (e <=? t) eqn:Due.
-        -- destruct (Z.gtb_spec (t - last_rx s) T) as [Age|Age].
+        -- destruct (Z.ltb_spec T (t - last_rx s)) as [Age|Age].
            ++ left. exists t. split; [left; reflexivity | lia].
            ++ right. eexists. split; [reflexivity|]. lia.
         -- right. exists e. split; [reflexivity | exact Hb].
@@ -270,7 +276,7 @@ Proof.
       * left. exists p. split; [apply in_or_app; right; exact Hp | exact Hb].
       * destruct P1 as [P1 _]. specialize (P1 e Ee). unfold ka_after, pings_new. rewrite Ee, EK.
         destruct (e <=? t) eqn:Due.
-        -- destruct (Z.gtb_spec (t - last_rx s) K) as [Age|Age].
+        -- destruct (Z.ltb_spec K (t - last_rx s)) as [Age|Age].
            ++ left. exists t. split; [left; reflexivity | lia].
            ++ right. eexists. split; [reflexivity|]. lia.
         -- right. exists e. split; [reflexivity | exact Hb].
@@ -372,7 +378,7 @@ Proof.
     + destruct (tick_fields c s t) as (_ & _ & _ & _ & _ & _ & _ & Ft & _). rewrite Ft in Hx.
       apply in_app_or in Hx as [Hx|Hx]; [|left; exact Hx]. right.
       unfold torn_new in Hx. rewrite ET in Hx. destruct (dc s) as [e|]; [|contradiction].
-      destruct (e <=? t); [|contradiction]. destruct (Z.gtb_spec (t - last_rx s) T) as [Age|Age]; [|contradiction].
+      destruct (e <=? t); [|contradiction]. destruct (Z.ltb_spec T (t - last_rx s)) as [Age|Age]; [|contradiction].
       destruct Hx as [<-|[]]. exists [], r. split; [reflexivity|]. cbn [last_arrival]. lia.
     + destruct (close_fields c s t) as (_ & _ & _ & _ & _ & _ & _ & Ft & _). rewrite Ft in Hx. left; exact Hx.
   - right. exists (e :: pre), post. split; [reflexivity|]. rewrite (last_arrival_step c s e pre U). exact Hgt.
@@ -391,7 +397,7 @@ Proof.
     + destruct (tick_fields c s t) as (_ & _ & _ & _ & _ & _ & _ & _ & Fp). rewrite Fp in Hx.
       apply in_app_or in Hx as [Hx|Hx]; [|left; exact Hx]. right.
       unfold pings_new in Hx. rewrite EK in Hx. destruct (ka s) as [e|]; [|contradiction].
-      destruct (e <=? t); [|contradiction]. destruct (Z.gtb_spec (t - last_rx s) K) as [Age|Age]; [|contradiction].
+      destruct (e <=? t); [|contradiction]. destruct (Z.ltb_spec K (t - last_rx s)) as [Age|Age]; [|contradiction].
       destruct Hx as [<-|[]]. exists [], r. split; [reflexivity|]. cbn [last_arrival]. lia.
     + destruct (close_fields c s t) as (_ & _ & _ & _ & _ & _ & _ & _ & Fp). rewrite Fp in Hx. left; exact Hx.
   - right. exists (e :: pre), post. split; [reflexivity|]. rewrite (last_arrival_step c s e pre U). exact Hgt.
@@ -485,7 +491,7 @@ Proof.
   - destruct (tick_fields c s t) as (_ & _ & _ & _ & _ & _ & Fd & Ft & _). rewrite Fd, Ft.
     unfold dc_after, torn_new. destruct (dc s) as [e|] eqn:Ed.
     + rewrite (H1 ltac:(discriminate)). destruct (cT c) as [d|]; [|specialize (Hn eq_refl); discriminate].
-      destruct (e <=? t); [destruct (t - last_rx s >? d)|]; cbn; split; auto; intros; try reflexivity; congruence.
+      destruct (e <=? t); [destruct (d <? t - last_rx s)|]; cbn; split; auto; intros; try reflexivity; congruence.
     + cbn. split; [congruence|exact H2].
   - destruct (close_fields c s t) as (_ & _ & _ & _ & _ & _ & Fd & Ft & _). rewrite Fd, Ft.
     destruct (cT c); [split; [congruence|exact H2]|auto].
